@@ -96,6 +96,13 @@ def descriptors() -> dict[str, NodeV]:
     d["SELECT qualified FROM unqualified JOIN"] = node(
         "Select", "stmt", expressions=Lst([node("Star")]),
         **{"from": node("From", this=table("Q", "S", "D")), "joins": Lst([node("Join", this=table("T"))])})
+    # with c1 as (select 1) select * from d.s.q join c1: the reference to the CTE is a bare Table node, but names no schema object
+    d["SELECT qualified JOIN cte"] = node(
+        "Select", "stmt",
+        **{"with": node("With", expressions=Lst([node("CTE", this=node("Select", expressions=Lst([lit("1", False)])),
+                                                      alias=node("TableAlias", this=ident("C1")))])),
+           "expressions": Lst([node("Star")]),
+           "from": node("From", this=table("Q", "S", "D")), "joins": Lst([node("Join", this=table("C1"))])})
     d["UNION"] = node("Union", "stmt", this=node("Select", expressions=Lst([lit("1", False)])),
                       expression=node("Select", expressions=Lst([lit("2", False)])))
     d["INSERT"] = node("Insert", "stmt", this=table("T"),
@@ -188,6 +195,9 @@ def descriptors() -> dict[str, NodeV]:
     d["SHOW SCHEMAS"] = node("Show", "stmt", this=Const("SCHEMAS"), terse=Const(False))
     d["SHOW SCHEMAS IN DATABASE"] = node("Show", "stmt", this=Const("SCHEMAS"), terse=Const(False),
                                          scope=table("D"), scope_kind=Const("DATABASE"))
+    # the short form `SHOW SCHEMAS IN d`: the pinned parser gives scope_kind TABLE (confirmed once against sqlglot 25.24.5)
+    d["SHOW SCHEMAS IN <database>"] = node("Show", "stmt", this=Const("SCHEMAS"), terse=Const(False),
+                                           scope=table("D"), scope_kind=Const("TABLE"))
     d["SHOW PRIMARY KEYS"] = node("Show", "stmt", this=Const("PRIMARY KEYS"), terse=Const(False))
     d["SHOW PRIMARY KEYS IN TABLE"] = node("Show", "stmt", this=Const("PRIMARY KEYS"), terse=Const(False),
                                            scope=table("T"), scope_kind=Const("TABLE"))
@@ -549,6 +559,16 @@ class FullHooks(ExecHooks):
             I.effect("parse-user", args[0] if args else None, site)
             self.stmt = descriptor(self.kind)
             return self.stmt
+        if d == "sqlglot.parse" and isinstance(kwargs.get("read"), Const) and kwargs["read"].v == "snowflake" and I.callstack \
+                and not any(f_.endswith("execute_string") for f_ in I.callstack):
+            # execute() splitting its own command: one statement — written bare, or followed by a comment after the terminator
+            # (`insert …; -- note`), which the pinned parser hands out as a trailing Semicolon node
+            self.parsed += 1
+            I.effect("parse-user", args[0] if args else None, site)
+            self.stmt = descriptor(self.kind)
+            if I.decide("the command ends with a comment after its terminator"):
+                return Lst([self.stmt, NodeV("Semicolon", {"comments": Lst([Const(" note")])}, name="trailing_comment", open=False)])
+            return Lst([self.stmt])
         if d in ("re.match", "re.search", "re.fullmatch") and self.nop_match is not None and not (I.callstack and "variables" in I.callstack[-1]):
             self.nop_calls.append((d, args, kwargs, site))
             I.effect("call", d, args, kwargs, site)
